@@ -234,7 +234,72 @@ def eval_op(case):
     return {'v': v, 'nt': (op, len(texts)), 'out': f'{len(positions)}-positions', 'counts': {'statements_judged': nstat, 'distinct_statement_texts': len(texts)}}
 
 
-REPLAY = {'operations': eval_op}
+def _in_child(fn):
+    """fn() in a forked child (class-level state of the library starts as in this process and dies with the child)"""
+    import os
+    import pickle
+    r, w = os.pipe()
+    pid = os.fork()
+    if pid == 0:
+        try:
+            os.close(r)
+            try:
+                out = ('ok', fn())
+            except BaseException as e:      # noqa
+                out = ('raise', f'{type(e).__name__}: {e}')
+            with os.fdopen(w, 'wb') as f:
+                pickle.dump(out, f)
+        finally:
+            os._exit(0)
+    os.close(w)
+    with os.fdopen(r, 'rb') as f:
+        data = f.read()
+    os.waitpid(pid, 0)
+    return pickle.loads(data) if data else ('raise', 'child died')
+
+
+def _plain(calls):
+    return [(st, {k: repr(x) for k, x in (pr or {}).items()}, site) for st, pr, site in calls]
+
+
+def eval_after(case):
+    """history: operation B right after operation A in the same process (fresh process per pair) - the statements B hands to the
+    driver are those it hands over when it is the first thing the process does, and are well-formed"""
+    op_b = case[0]
+    vals_b = {p: ('n1' if p == '@node' else f'{p}-id') for p in list(OPS[op_b][0]) + ['@node']}
+    v = []
+    seen_fp = set()
+
+    def bad(site, clause, msg):
+        fp = f'{site}/{clause}'
+        if fp not in seen_fp:
+            seen_fp.add(fp)
+            v.append((fp, msg))
+    alone = _in_child(lambda: _plain(run_op(op_b, vals_b)[0]))
+    if alone[0] != 'ok':
+        return {'v': [('harness/alone-failed', f'{op_b}: {alone[1]}')], 'nt': None, 'out': 'alone-failed'}
+    npairs = 0
+    for op_a in OPS:
+        vals_a = {p: ('n1' if p == '@node' else f'{p}-id') for p in list(OPS[op_a][0]) + ['@node']}
+
+        def both(op_a=op_a, vals_a=vals_a):
+            run_op(op_a, vals_a)
+            return _plain(run_op(op_b, vals_b)[0])
+        got = _in_child(both)
+        npairs += 1
+        if got[0] != 'ok':
+            continue
+        for st, pr, site in got[1]:
+            for clause, msg in cypherlex.well_formed(st, pr):
+                bad(site, clause, f'[{site}, reached via {op_b} called after {op_a}] {msg}\n    statement: {st!r}')
+        if [x[0] for x in got[1]] != [x[0] for x in alone[1]]:
+            diff = [(a, b) for a, b in zip([x[0] for x in alone[1]], [x[0] for x in got[1]]) if a != b][:1]
+            site = next((x[2] for x, y in zip(got[1], alone[1]) if x[0] != y[0]), got[1][0][2] if got[1] else '?')
+            bad(site, 'text-depends-on-earlier-call', f'[{site}] {op_b} called after {op_a} sends other statements than when called first: {diff}')
+    return {'v': v, 'nt': (op_b, npairs), 'out': 'after-every-operation'}
+
+
+REPLAY = {'operations': eval_op, 'after-another-operation': eval_after}
 
 
 def run(report):
@@ -245,6 +310,9 @@ def run(report):
                            'deviation - none, empty, or an injected driver fault - of one call under the default answer); every recorded (statement, parameters) pair is judged; '
                            'distinct = operations with at least one recorded statement',
                       space=f'{len(OPS)} operations of Neo4jPropertyGraph, Neo4jGraphImporter, Neo4jASM, Neo4jADMGraph, Neo4jCBMGraph')
+    explore_cases(report, 'after-another-operation', eval_after, [(op,) for op in OPS], chunk=1,
+                  rule='every ORDERED PAIR of backend operations, each pair in a process of its own: the second operation must hand the '
+                       'driver the statements it hands over when called first, and they must be well-formed')
     report.assumptions += ['well-formedness is judged lexically (no Cypher parser / server in the sandbox): balanced brackets and quotes, no '
                            'template residue, named parameters supplied, variables used in properties()/labels()/type()/x.prop/RETURN x bound',
                            'a value may appear in the text only inside one string literal that de-escapes to it; graph ids are stored '
